@@ -63,6 +63,6 @@ ClassesSane == \A p \in {"P1", "P2"} : \A c \in {"implId", "instId", "bootSeed",
 ASSUME ClassesSane
 ASSUME JsonSerialize(IOEnv.OUT, Doc)
 VARIABLE dummy
-GInit == dummy = 0 /\ Init
-GNext == UNCHANGED <<dummy, obj, ret>>
+GInit == dummy = 0
+GNext == UNCHANGED dummy
 ====
